@@ -61,7 +61,13 @@ T = {
  "C10-1": ("C10", "manifest truncated inside the lock hash or inside a table name", "first-run", "C10 parser-gate (field-count and parity comparisons)", ""),
  "C10-2": ("C10", "bit flip in a journal chunk payload read through a batched API", "first-run", "C01 crc-gate (the C10 rule set leaves NewCompressedChunk to C01)", "reported by the sibling property's rule"),
  "C08-1": ("C08", "full GC after commit+tag, gc, then branch rewound/deleted (chunks only in old old-gen files, reachable only from new-gen roots)", "strengthened", "C08 generational-order (new-generation filter derives from AddChunksToStore)", "missed by the first C08 rule set"),
- "C08-2": ("C08", "chunk X put before the GC and left uncommitted, identical chunk put again during the GC, parent committed after the GC", "missed", "", "the keeper consultation on the chunkExists outcome is decided by a value computed after the retry loop; the rule set models the keeper handshake per front-end, not per memtable outcome (patch re-based onto fix b3e3cc0, see REBASE_NOTE.txt)"),
+ "C08-2": ("C08", "chunk X put before the GC and left uncommitted, identical chunk put again during the GC, parent committed after the GC", "strengthened", "C08 write-offered-to-keeper (a memtable write/hit is acknowledged with a possibly-true result only past the keeper call or the no-keeper edge; needs path facts carried through phis and an untested comparison, ReachFactsF)", "missed by the rule set that modelled the keeper handshake per front-end only (patch re-based onto fix b3e3cc0, see REBASE_NOTE.txt)"),
+ "C18-1": ("C18", "a commit with three or more parents whose third parent has ancestors the first two lack (octopus merge)", "strengthened", "C18 closure-loops-complete (a loop over the parents is left only through its condition or towards an error return)", "the first C18 rule set checked that every iteration performs the diff, not that the loop is not left early"),
+ "C18-2": ("C18", "a duplicate parent listed before a different parent ([A, A, B])", "first-run", "C18 heights-from-parents (parents[j] decoded from the value read for opts.Parents[j])", ""),
+ "C19-1": ("C19", "two merge commits of equal height that share a direct parent while a more recent common ancestor exists", "missed", "", "an added fast path that returns a (non-maximal) common ancestor: which ancestor is highest is a value-level fact about the graph; a rule 'results come only from the closure walk' would also fire on a correct fast path"),
+ "C19-2": ("C19", "HEAD~N with N >= 8 across a merge whose first parent is lower than its second", "missed", "", "ancestor-spec resolution is listed as not decided by C19 (only the fast-forward clause is claimed)"),
+ "C46-1": ("C46", "two equivalent contradicting dolt_ignore patterns one of which has a run of three or more wildcards", "missed", "", "value-level: string normalisation of a pattern (ReplaceAll once vs until stable)"),
+ "C46-2": ("C46", "dolt_clean called with the explicit name of a tracked table", "first-run", "C46 clean-keeps-tracked (reported as undecided: the unconditional loop that removes staged names from the removal set is no longer found)", "reported through the rule's shape floor"),
  "C08-3": ("C08", "a write+commit landing between the root read and BeginGC", "first-run", "C08 root-in-new-gen (reported as undecided: the root insertion is no longer found in the GC literals)", "reported through the rule's site floor, i.e. generically"),
  "C08-4": ("C08", "full GC with a fault between the two table swaps", "strengthened", "C08 generational-order (old generation swapped only after the new generation's swap)", "missed by the first C08 rule set"),
  "C20-1": ("C20", "a working-set write wins the root CAS between a clean-branch delete's read and its CAS", "first-run", "C20 ws-clean-before-edit", ""),
